@@ -223,10 +223,15 @@ class FunctionDecoratorManager(DecoratorManager):
         self.eval_func: EvalFunc = eval_func_var.func
 
         self.logger = self.eval_func.logger
+        global_ctx = ast_ctx.global_ctx
 
         def on_func_var_deleted():
             if self.status is DecoratorManagerStatus.RUNNING:
                 self.hass.async_create_task(self.stop())
+            elif self.status is DecoratorManagerStatus.VALIDATED:
+                # dropped before its context was started: never start it
+                global_ctx.dms_delay_start.discard(self)
+                self.update_status(DecoratorManagerStatus.STOPPED)
 
         weakref.finalize(eval_func_var, on_func_var_deleted)
 
